@@ -31,6 +31,8 @@ var $callDeferred = (deferred, jsErr, fromPanic) => {
     $stackDepthOffset--;
     var outerPanicStackDepth = $panicStackDepth;
     var outerPanicValue = $panicValue;
+    var ownDeferred = deferred;
+    var unwind = false, runRest = false;
     var run = { list: null, aborted: false };
 
     var localPanicValue = $curGoroutine.panicStack.pop();
@@ -97,10 +99,12 @@ var $callDeferred = (deferred, jsErr, fromPanic) => {
 
             if (localPanicValue !== undefined && $panicStackDepth === null) {
                 /* error was recovered */
-                if (fromPanic) {
-                    throw null;
+                if (fromPanic || deferred !== ownDeferred) {
+                    unwind = true;
+                } else {
+                    runRest = true;
                 }
-                return;
+                break;
             }
         }
     } catch (e) {
@@ -125,6 +129,14 @@ var $callDeferred = (deferred, jsErr, fromPanic) => {
             $panicValue = outerPanicValue;
         }
         $stackDepthOffset++;
+    }
+    if (unwind) {
+        /* Unwind to the frame of the function that deferred the recovering call. */
+        throw null;
+    }
+    if (runRest) {
+        /* Recovered (after a suspension) by a call this function deferred: run the remaining ones. */
+        $callDeferred(ownDeferred, null, false);
     }
 };
 
